@@ -86,12 +86,14 @@ func main() {
 	}
 	c := NewCollector(*prop)
 	os.Setenv("HARNESS_OUT", *out)
+	inflight("the "+*prop+" run (no single operation recorded; the output tail names the goroutine that died)", "", nil)
 	run(c, NewRng(*seed), *tier == "thorough")
 	// anomalies noticed by the shared decoding helper (every key the run decodes is also decoded into one reused
 	// Key variable): reported under the property that is being checked
 	for _, a := range reuseAnomalies {
 		c.Fail(*prop+"/decode-depends-on-destination", a.desc, a.rep)
 	}
+	os.Remove(*out + "/inflight.json")
 	if err := c.Write(*out, *seed, *tier); err != nil {
 		fmt.Fprintln(os.Stderr, err)
 		os.Exit(2)
